@@ -9,6 +9,7 @@ import (
 	"fmt"
 	"math/rand"
 	"os"
+	"reflect"
 	"sort"
 	"time"
 
@@ -42,7 +43,14 @@ type Rec struct {
 	Dtracks  [][]Ev   `json:"dtracks"`
 	Pan      string   `json:"pan"`
 	Feat     []string `json:"feat"`
+	// the result of the PREVIOUS conversion made in this process, looked at again after this one: still what it was?
+	// (true when there was none)
+	PrevIntact bool `json:"previntact"`
 }
+
+// the previous conversion's result (the value the library returned, retained) and what it looked like then
+var prevDest *smf.SMF
+var prevTracks [][]Ev
 
 func ev(d uint32, m []byte) Ev {
 	return Ev{Hi: int(d >> 16), Lo: int(d & 0xffff), M: append(hx.B{}, m...)}
@@ -138,14 +146,25 @@ func run(rec *Rec, adds []add, closeDelta uint32, div TF) {
 	case x := <-ch:
 		rec.Pan = x.pan
 		rec.Ddiv = tfOf(nil)
+		rec.PrevIntact = true
+		if prevDest != nil { // an earlier result must not change because another file was converted
+			var now [][]Ev
+			for _, t := range prevDest.Tracks {
+				now = append(now, track(t))
+			}
+			rec.PrevIntact = reflect.DeepEqual(now, prevTracks)
+		}
+		prevDest, prevTracks = nil, nil
 		if x.pan == "" {
 			rec.Dfmt, rec.Ddiv = int(x.d.Format()), tfOf(x.d.TimeFormat)
 			for _, t := range x.d.Tracks {
 				rec.Dtracks = append(rec.Dtracks, track(t))
 			}
+			d := x.d
+			prevDest, prevTracks = &d, rec.Dtracks
 		}
 	case <-time.After(10 * time.Second):
-		rec.Pan, rec.Ddiv = "timeout: ConvertToSMF1 did not return within 10 s", tfOf(nil)
+		rec.Pan, rec.Ddiv, rec.PrevIntact = "timeout: ConvertToSMF1 did not return within 10 s", tfOf(nil), true
 	}
 }
 
@@ -261,6 +280,31 @@ func genRand(w *hx.Writer, n int, seed int64) {
 	divs := []TF{{"metric", 96, 0}, {"metric", 960, 0}, {"metric", 1, 0}, {"metric", 32767, 0}, {"smpte", 25, 40}, {"smpte", 29, 80}, {"smpte", 24, 4}, {"smpte", 30, 100}}
 	for id := 0; id < n; id++ {
 		feat := map[string]bool{}
+		if id%25 == 24 { // a file longer than 2^32 ticks (the absolute tick does not fit 32 bits): 17..48 gaps of the largest
+			// legal delta; every destination track gets an event at least every 8 gaps, so that its deltas stay below 2^32
+			nch := 1 + r.Intn(3)
+			chans := r.Perm(16)[:nch]
+			var evs []add
+			ngap := 17 + r.Intn(32)
+			for i := 0; i < ngap; i++ {
+				var m []byte
+				if k := i % (nch + 1); k == nch {
+					m = otherMsg(r, true)
+				} else {
+					m = chanMsg(r, chans[k], true)
+				}
+				evs = append(evs, add{0x0FFFFFFF - uint32(r.Intn(3)), [][]byte{m}})
+				for j := r.Intn(3); j > 0; j-- { // a few more events close by
+					evs = append(evs, add{uint32(r.Intn(3)), [][]byte{chanMsg(r, chans[r.Intn(nch)], true)}})
+				}
+			}
+			feat["beyond_2^32_ticks"] = true
+			rec := Rec{ID: id}
+			run(&rec, evs, uint32(r.Intn(1000)), divs[r.Intn(len(divs))])
+			describe(&rec, feat)
+			w.Put(rec)
+			continue
+		}
 		var nev int
 		switch k := r.Intn(10); {
 		case k < 2:
